@@ -79,7 +79,62 @@ theorem exec_hset2 (r : Redis) (k f1 v1 f2 v2 : String) :
           pure (.int (([f1, f2].eraseDups.filter (fun x => (hlookup h x).isNone)).length : Nat),
                 putHash r k (hset1 (hset1 h f1 v1) f2 v2))) := rfl
 
+theorem exec_hincrby (r : Redis) (k f n : String) :
+    exec r "hincrby" [k, f, n] =
+      (do let d ← parseInt n
+          let h ← getHash r k
+          let cur ← match hlookup h f with
+            | none => pure (0 : Int)
+            | some s => match parseDecInt s with
+              | some i => pure i
+              | none => rerr "ERR hash value is not an integer"
+          let v := cur + d
+          if v > 9223372036854775807 ∨ v < -9223372036854775808 then
+            rerr "ERR increment or decrement would overflow"
+          else pure (.int v, putHash r k (hset1 h f (toString v)))) := rfl
+
 theorem exec_del1 (r : Redis) (k : String) :
     exec r "del" [k] = pure (.int (([k].eraseDups.filter (fun x => (r.db x).isSome)).length : Nat), r.put k none) := rfl
+
+/-! frame facts about hash updates -/
+
+theorem find_map_set (t : List (String × String)) (f g v : String) (hne : f ≠ g) :
+    List.find? (fun x => x.1 == g) (List.map (fun p => if (p.1 == f) = true then (f, v) else p) t)
+      = List.find? (fun x => x.1 == g) t := by
+  induction t with
+  | nil => rfl
+  | cons p t ih =>
+    simp only [List.map_cons, List.find?_cons]
+    by_cases hp : (p.1 == f) = true
+    · have hpf : p.1 = f := by simpa using hp
+      have h1 : (p.1 == g) = false := by simp [hpf, hne]
+      have h2 : (f == g) = false := by simp [hne]
+      simp only [hp, if_true, h1, h2]
+      exact ih
+    · have hp' : (if (p.1 == f) = true then (f, v) else p) = p := by simp [hp]
+      rw [hp']
+      cases hg : (p.1 == g)
+      · simp only []; exact ih
+      · rfl
+
+theorem hlookup_hset1_ne (h : List (String × String)) (f g v : String) (hne : f ≠ g) :
+    hlookup (hset1 h f v) g = hlookup h g := by
+  unfold hset1 hlookup
+  split
+  · rw [find_map_set h f g v hne]
+  · simp [List.find?_append, hne]
+
+theorem hset1_ne_nil (h : List (String × String)) (f v : String) : (hset1 h f v).isEmpty = false := by
+  unfold hset1
+  split
+  · rename_i hany
+    cases h with
+    | nil => simp at hany
+    | cons p t => simp
+  · simp
+
+theorem getHash_putHash (s : Redis) (k : String) (h : List (String × String)) (hne : h.isEmpty = false) :
+    getHash (putHash s k h) k = .ok h := by
+  simp [putHash, hne, Redis.setVal, Redis.put, getHash]
 
 end CentrifugeVerif.LuaRedis
